@@ -4,6 +4,7 @@ mod c02;
 mod c03;
 mod c05;
 mod c09;
+mod c10;
 mod common;
 mod storeops;
 mod storeprops;
@@ -25,6 +26,7 @@ fn main() -> anyhow::Result<()> {
         "C02" => c02::run(seed, n, &out, thorough),
         "C07" | "C13" | "C15" | "C16" | "C17" => storeprops::run(prop, seed, n, &out, thorough),
         "C09" => c09::run(seed, n, &out, thorough),
+        "C10" => c10::run(seed, n, &out, thorough),
         "C12" | "C14" => actorops::run(prop, seed, n, &out, thorough),
         "C08" => c01::run(seed, n, &out, thorough, "C08", "Check.C08"),
         "C03" => c03::run(seed, n, &out, thorough),
